@@ -958,9 +958,12 @@ where
     #[inline]
     fn go<M: Mode>(&self, inp: &mut InputRef<'src, '_, I, E>) -> PResult<M, O> {
         if self.parsers.is_empty() {
-            let offs = inp.cursor();
-            let err_span = inp.span_since(&offs);
-            inp.add_alt([], None, err_span);
+            // Nothing can match: report what was found here (`None` means the end of input)
+            let before = inp.save();
+            let found = inp.next_maybe_inner();
+            let err_span = inp.span_since(before.cursor());
+            inp.rewind(before);
+            inp.add_alt([], found.map(|f| f.into()), err_span);
             Err(())
         } else {
             let before = inp.save();
